@@ -438,6 +438,7 @@ fn gen_sink(rng: &mut Rng, cfg: &GenCfg, cur: &Cursor) -> Sink {
         _ => Sink::Write {
             buf: *rng.pick(&[
                 BufKind::Slice,
+                BufKind::SubSlice,
                 BufKind::Deque,
                 BufKind::NdView,
                 BufKind::NdStrided,
